@@ -3,6 +3,7 @@
 From Coq Require Import Reals Lra ZArith Bool List.
 From Flocq Require Import Core.Raux.
 From SC Require Import Num Vec3 VecR Kernel KernelProofs Grid Contact ContactProofsA.
+From SC Require ContactTie.
 Import ListNotations.
 Local Open Scope R_scope.
 
@@ -95,3 +96,13 @@ Example a_concrete_interaction :
   exists fn fa fb fc,
   interaction NumR (1/10) (1/10) (mkv (1/4) (1/4) (-1/20)) (mkv 0 0 0) (mkv 1 0 0) (mkv 0 1 0) (mkv 0 0 1) (1/2) 2 0 0 = Some (fn, fa, fb, fc).
 Proof. exact concrete_interaction. Qed.
+
+(* THE TIE TO THE SOURCE of the narrow phase (ContactTie.v): Narrow_gen.v is regenerated from resolve_contact of
+   src/contact_models/contact_node_node_via_coupling.cpp and from the constructor of contact_model_abstract.cpp on every run; the
+   coupling decision (three squared distances with their overrides, the choice of the closest face node, the test against the
+   adhesion cut-off), the repulsion (kernel call, cut-off test, closest point, direction with its two reversals, force and its
+   barycentric distribution) and the squared cut-offs are the model's, by reflexivity, for every number type; and
+   Contact.resolve_contact is exactly "that decision, else that repulsion". *)
+Theorem narrow_phase_model_is_what_the_source_says : ContactTie.narrow_phase_tie.
+Proof. exact ContactTie.narrow_phase_model_is_what_the_source_says. Qed.
+Print Assumptions narrow_phase_model_is_what_the_source_says.
